@@ -1,6 +1,6 @@
 (* Proofs/Redact.v (cfg, C20) *)
 From Coq Require Import List String Bool ZArith NArith Lia Ascii.
-From MV Require Import Lib.GoJson Lib.GoJsonFacts Gen.CfgTypes Model.Redact.
+From MV Require Import Lib.CfgStore Lib.GoJson Lib.GoJsonFacts Gen.CfgTypes Model.Redact.
 Import ListNotations.
 Open Scope string_scope.
 
@@ -1145,3 +1145,8 @@ Lemma unescape_examples :
   unescape "\u4e2d" = Some (String (ascii_of_N 228) (String (ascii_of_N 184) (String (ascii_of_N 173) ""))) /\
   unescape "\x" = None /\ unescape "\u12" = None /\ unescape "\ud83d" = None.
 Proof. repeat split; vm_compute; reflexivity. Qed.
+
+(* an output handed out by reference to a region that is written afterwards reads as what was written *)
+Lemma output_by_reference_overwritten (A : Type) (st : store A) (r : N) (unredacted : A) :
+  commit A st [(r, unredacted)] r = unredacted.
+Proof. unfold commit, write. cbn. rewrite N.eqb_refl. reflexivity. Qed.
